@@ -112,6 +112,89 @@ def confirm_on_impl(c):
     return {'ids_on_impl': ids, 'same': len(set(ids.values())) == 1}
 
 
+def connection_histories(chk, t):
+    """One Connection object through histories of logins at different versions, refused connects and disconnects: after every
+    successful connect the decoder tables of its login reactor and, after login success, of its play reactor are exactly the
+    {id: class} tables of the version in its context."""
+    import sim, proto
+    from minecraft.networking.connection import Connection, ConnectionContext
+    from minecraft.networking.packets import clientbound as cb
+    rng = chk.rng
+    sup = [p for p in t['supported_protocols'] if not any(c['proto'] == p for c in gen_tables.collisions(t) if c['supported'])]
+
+    def fresh(mod, pv):
+        ctx = ConnectionContext(protocol_version=pv)
+        return {k.get_id(ctx): k for k in mod.get_packets(ctx)}
+    for n in range(40 if chk.tier == 'thorough' else 12):
+        steps = []
+        pv = rng.choice(sup)
+        for _ in range(rng.randrange(3, 8)):
+            k = rng.random()
+            if k < 0.35:
+                pv = rng.choice(sup + [47, 340, 404, 754, 757])
+                steps.append(('version', pv))
+            elif k < 0.55:
+                steps.append(('refused',))
+            else:
+                steps.append(('login',))
+        servers = []
+        for st in steps:
+            if st[0] == 'refused':
+                srv = sim.Server([], end='idle')
+                srv.refuse = True
+                servers.append(srv)
+            elif st[0] == 'login':
+                servers.append(sim.Server([], end='idle'))
+        servers.append(sim.Server([], end='idle'))
+        net = sim.Net(servers).install()
+        what = None
+        try:
+            cur = next((s[1] for s in steps if s[0] == 'version'), pv)
+            conn = Connection('localhost', 25565, username='user', allowed_versions={cur}, handle_exception=lambda e, i: None)
+            done = []
+            for st in steps:
+                done.append(list(st))
+                if st[0] == 'version':
+                    cur = st[1]
+                    conn.allowed_proto_versions = {cur}
+                    continue
+                try:
+                    conn.disconnect(immediate=True)
+                except Exception:
+                    pass
+                try:
+                    conn.connect()
+                except OSError:
+                    if st[0] == 'refused':
+                        continue
+                    raise
+                if st[0] == 'refused':
+                    what = 'a refused connect did not raise'
+                    break
+                ids = proto.Ids(cur)
+                srv = net.servers[net.nconn - 1]
+                got = dict(conn.reactor.clientbound_packets)
+                if conn.context.protocol_version != cur or got != fresh(cb.login, cur):
+                    what = 'login decoder table at protocol %d is not the table of that version (%d entries differ)' % (cur, sum(1 for k in set(got) | set(fresh(cb.login, cur)) if got.get(k) is not fresh(cb.login, cur).get(k)))
+                    break
+                srv.chunks.append(proto.frame(ids.login_success, ids.b_login_success()))
+                net.run_threads(conn)
+                got = dict(conn.reactor.clientbound_packets)
+                exp = fresh(cb.play, cur)
+                if type(conn.reactor).__name__ != 'PlayingReactor' or got != exp:
+                    bad = sorted(k for k in set(got) | set(exp) if got.get(k) is not exp.get(k))
+                    what = 'play decoder table at protocol %d is not the table of that version (%s, ids %s)' % (cur, type(conn.reactor).__name__, [hex(b) for b in bad[:6]])
+                    break
+        except Exception as e:
+            what = 'history raised %s' % type(e).__name__
+        finally:
+            net.uninstall()
+        chk.count('connection-history', [n, steps], True)
+        if what:
+            chk.violation('connection-history', 'connection-history:%d' % (hash(repr(done)) % 10 ** 8), {'case': {'history': done}, 'observed': what},
+                          'one Connection through %s: %s' % (done, what))
+
+
 def run(chk):
     bad = common.lint()
     if bad:
@@ -205,6 +288,7 @@ def run(chk):
             what = ('protocol %d %s, asked through a context created before the tables were rebuilt (%s): ' % (c['proto'], c['table'], c['inserted'] if 'index map' in str(c['inserted']) else 'version %r inserted' % c['inserted']) +
                     ('classes %s share id %s' % ([k.split(':')[-1] for i, k in c['after'] if i == dup[0]], dup[0]) if dup else 'the table changed (%s)' % (str(c['after'])[:120])))
             chk.violation('extension', 'extension:%d:%s' % (c['proto'], c['table']), {'case': c}, what)
+    connection_histories(chk, t)
     chk.sample('tables', {'proto': 757, 'table': 'clientbound.play',
                           'ids': sorted((t['per_version'][-1]['classes'][c]['id'], c.split(':')[-1]) for c in t['per_version'][-1]['tables']['clientbound.play'])[:6]}, k=1)
     chk.assumptions += ['the reifier evaluates get_packets/get_id on every known version (determinism checked by double evaluation)']
